@@ -191,12 +191,20 @@ def encodeVersion (H : Bytes → Bytes) (v : Nat) : OTree Bytes Bytes → KVPair
     let ((u, nonce), recs, _) := encodeNodes H true v t []
     if u = v then recs else (physKey v 1, physKey u nonce) :: recs
 
-/-- the same image with the reference root in the short form `s<version>` (the record written before lazy
-    pruning, still accepted by the format: it names the root `(version, 1)`) -/
-def encodeVersionShort (H : Bytes → Bytes) (v : Nat) : OTree Bytes Bytes → KVPairs
-  | none => [(physKey v 1, [])]
+/-- the version the root of a tree was written at -/
+def rootVersion (v : Nat) : Node Bytes Bytes → Nat
+  | .leaf _ _ ver => ver.getD v
+  | .inner _ _ _ ver _ _ => ver.getD v
+
+/-- an image holding versions `v-1` and `v`, where `v` is a commit without changes recorded in the short
+    form `s<version>` of the reference root (the record written before lazy pruning, still accepted by the
+    format: it names the root `(version, 1)`). `none` when the tree of `v` was not inherited from `v-1`. -/
+def encodeVersionShort (H : Bytes → Bytes) (v : Nat) : OTree Bytes Bytes → Option KVPairs
+  | none => none
   | some t =>
-    let ((u, nonce), recs, _) := encodeNodes H true v t []
-    if u = v then recs
-    else (physKey v 1, if nonce = 1 then (physKey u nonce).take 9 else physKey u nonce) :: recs
+    let u := rootVersion v t
+    if u + 1 = v then
+      let (_, recs, _) := encodeNodes H true u t []
+      some ((physKey v 1, (physKey u 1).take 9) :: recs)
+    else none
 end Iavl
